@@ -90,12 +90,18 @@ def eval_in_original_context(f, args, caller_fn_scope):
   # to the innermost function call.
   ctx_frame = _find_originating_frame(caller_fn_scope, innermost=True)
 
-  args = (
-      args[0],
-      ctx_frame.f_globals if len(args) < 2 else args[1],
-      ctx_frame.f_locals if len(args) < 3 else args[2],
-  )
-  return f(*args)
+  # Same defaults as the builtin: without globals the calling frame provides
+  # both namespaces; with globals but without locals, the globals are used for
+  # both. None means "not given".
+  globals_ = args[1] if len(args) > 1 else None
+  locals_ = args[2] if len(args) > 2 else None
+  if globals_ is None:
+    globals_ = ctx_frame.f_globals
+    if locals_ is None:
+      locals_ = ctx_frame.f_locals
+  elif locals_ is None:
+    locals_ = globals_
+  return f(args[0], globals_, locals_)
 
 
 def super_in_original_context(f, args, caller_fn_scope):
